@@ -55,7 +55,7 @@ func (a AnimSpec) String() string {
 }
 
 var animDurations = []int{0, 1, 40, 40, 100, 1 << 24 - 2, 1<<24 - 1}
-var animMuts = []string{"same", "pixel", "rect", "rect", "big", "most", "alphaonly", "semi", "small", "corners", "erase"}
+var animMuts = []string{"same", "pixel", "rect", "rect", "big", "most", "alphaonly", "semi", "small", "corners", "erase", "toggle", "toggle"}
 
 func GenAnimSpec(r *RNG, maxSide, maxFrames int, lossless bool, alphaPct int) AnimSpec {
 	a := AnimSpec{Seed: r.Next(), Lossless: lossless, ICCLen: -1, EXIFLen: -1, XMPLen: -1}
@@ -102,6 +102,8 @@ func GenAnimSpec(r *RNG, maxSide, maxFrames int, lossless bool, alphaPct int) An
 				f.Mut = "same" // a duplicate right after a structural decision of the encoder
 			case "corners", "semi", "pixel":
 				f.Mut = "erase" // pixels the previous sub-frame left untouched disappear
+			case "erase", "alphaonly", "toggle":
+				f.Mut = "toggle" // ... and come back (off, on, off, on)
 			}
 		}
 		a.Frames = append(a.Frames, f)
@@ -139,7 +141,7 @@ func randPixel(r *RNG, alpha string) color.NRGBA {
 // Canvases returns the images passed to AddFrame and the full canvases they mean.
 func (a AnimSpec) Canvases() (inputs []image.Image, canvases []*image.NRGBA) {
 	w, h := a.CW, a.CH
-	var prev *image.NRGBA
+	var prev, prev2 *image.NRGBA
 	for i, f := range a.Frames {
 		r := NewRNG(f.Seed)
 		cur := image.NewNRGBA(image.Rect(0, 0, w, h))
@@ -213,6 +215,14 @@ func (a AnimSpec) Canvases() (inputs []image.Image, canvases []*image.NRGBA) {
 			p1, p2 := randPixel(r, "opaque"), randPixel(r, "opaque")
 			cur.SetNRGBA(x1, y1, p1)
 			cur.SetNRGBA(x2, y2, p2)
+		case "toggle":
+			// back to the picture shown before the previous one (a blinking element:
+			// whatever the last frame added, removed or wiped is undone exactly)
+			if prev2 != nil {
+				copy(cur.Pix, prev2.Pix)
+			} else {
+				cur.SetNRGBA(r.Intn(w), r.Intn(h), randPixel(r, a.Alpha))
+			}
 		case "corners":
 			// two opposite corners change: the changed rectangle is exactly the canvas,
 			// everything inside it is unchanged
@@ -279,7 +289,7 @@ func (a AnimSpec) Canvases() (inputs []image.Image, canvases []*image.NRGBA) {
 			copy(canvas.Pix[y*canvas.Stride:y*canvas.Stride+4*n], conv.Pix[y*conv.Stride:y*conv.Stride+4*n])
 		}
 		canvases = append(canvases, canvas)
-		prev = cur
+		prev2, prev = prev, cur
 	}
 	return
 }
